@@ -36,8 +36,35 @@ func TestWatchedRuleSetFileIsFollowed(t *testing.T) {
 
 		file := filepath.Join(rules, "src0.yaml")
 		singleFile := rapid.Bool().Draw(t, "srcIsTheFile")
+		// the layout of a mounted Kubernetes ConfigMap: the file is a symbolic link to ..data/src0.yaml, ..data one to a
+		// directory with the current content; an update brings a new directory and replaces the link ..data atomically
+		configMap := singleFile && rapid.IntRange(0, 2).Draw(t, "configMapLayout") == 1
+		generation := 0
 
-		if err = os.WriteFile(file, []byte(ruleSetYAML(0, "v1")), 0o600); err != nil {
+		publish := func(ver string) {
+			generation++
+
+			d := filepath.Join(rules, fmt.Sprintf("..gen%d", generation))
+			_ = os.Mkdir(d, 0o755)
+			_ = os.WriteFile(filepath.Join(d, "src0.yaml"), []byte(ruleSetYAML(0, ver)), 0o600)
+			_ = os.Symlink(filepath.Base(d), filepath.Join(rules, "..data_tmp"))
+
+			if err := os.Rename(filepath.Join(rules, "..data_tmp"), filepath.Join(rules, "..data")); err != nil {
+				t.Fatalf("harness: %v", err)
+			}
+
+			if generation > 1 {
+				_ = os.RemoveAll(filepath.Join(rules, fmt.Sprintf("..gen%d", generation-1)))
+			}
+		}
+
+		if configMap {
+			publish("v1")
+
+			if err = os.Symlink(filepath.Join("..data", "src0.yaml"), file); err != nil {
+				t.Fatalf("harness: %v", err)
+			}
+		} else if err = os.WriteFile(file, []byte(ruleSetYAML(0, "v1")), 0o600); err != nil {
 			t.Fatalf("harness: %v", err)
 		}
 
@@ -94,7 +121,17 @@ func TestWatchedRuleSetFileIsFollowed(t *testing.T) {
 			_, statErr := os.Stat(file)
 			exists := statErr == nil
 
+			if configMap {
+				op = "config map update"
+
+				publish(ver)
+
+				expected = ver
+				nt = true
+			}
+
 			switch op {
+			case "config map update":
 			case "rewrite":
 				if !exists {
 					continue
@@ -138,6 +175,7 @@ func TestWatchedRuleSetFileIsFollowed(t *testing.T) {
 
 		vkit.S.Eval()
 		vkit.S.Label(fmt.Sprintf("real_watcher.src_is_the_file=%v", singleFile))
+		vkit.S.LabelIf(configMap, "real_watcher.config_map_layout")
 
 		if nt {
 			vkit.S.NonTrivial("watch|"+strings.Join(history, "|"), map[string]any{"provider": "file_system (real watcher)", "history": history})
